@@ -36,6 +36,9 @@ def specOK (r : Req) (o : Obs) : Bool :=
     (if o.err == .eof then o.data == r.body && decide (r.body.length ≤ r.limit) else true)
       && (if decide (r.body.length ≤ r.limit) && wellBehaved r.script then o.err == .eof else true)
 
+/-- the statement's word on the rejection: it "answers 413" (the body of the answer is not specified) -/
+def errSpecOK (o : ErrResp) : Bool := o.status == 413
+
 end Body
 
 /-! ## basicauth -/
@@ -87,6 +90,9 @@ def specOK (r : Req) (o : Obs) : Bool :=
     (the handler runs); every other request is subject to the oracle above -/
 def gateSpecOK (skip : Bool) (r : Req) (o : Obs) : Bool :=
   if skip then o.ran else specOK r o
+
+/-- the statement's word on the rejection: "answers 401 with WWW-Authenticate" -/
+def errSpecOK (o : Body.ErrResp) : Bool := o.status == 401 && o.www.isSome
 
 end Auth
 
